@@ -43,6 +43,77 @@ HASHED = ['remove_useless_nodes', 'to_first_order', 'to_surface', 'to_facets', '
           'extract_with_element_indices']
 
 
+# Row-wise duplicate detection that the model represents by `remove_duplicates`
+# (to_facets) and that the surface extraction relies on: the function bodies
+# must be exactly these (compared as ast.dump, docstrings dropped).  Any other
+# way of finding equal facets (hashing, packing rows into integer keys, ...) is
+# outside what the model and its theorem C09_remove_duplicates describe.
+EXPECTED_BODIES = {
+    ('functions.py', None, 'remove_duplicates'): """
+sorted_connectivities = [
+    np.sort(connectivity)[:end] for connectivity in connectivities]
+unique = np.unique(
+    sorted_connectivities, axis=0,
+    return_index=True, return_inverse=return_inverse)
+indices = unique[1]
+ret = [connectivities[indices]]
+
+if return_index:
+    ret.append(indices)
+if return_inverse:
+    ret.append(unique[-1])
+if len(ret) == 1:
+    return ret[0]
+else:
+    return tuple(ret)
+""",
+    ('graph_processor.py', 'GraphProcessorMixin', '_extract_surface'): """
+if facet_type == 'polygon':
+    sorted_facets = np.array(
+        [np.sort(f) for f in facets], dtype=object)
+    surface_indices, surface_positions \\
+        = self._extract_surface_polygon(facets, sorted_facets)
+else:
+    sorted_facets = np.array([np.sort(f) for f in facets])
+    unique_sorted_facets, unique_indices, unique_counts = np.unique(
+        sorted_facets, return_index=True, return_counts=True, axis=0)
+    surface_ids = facets[unique_indices[np.where(unique_counts == 1)]]
+    surface_indices = self.nodes.ids2indices(surface_ids)
+    surface_positions = self.nodes.data[surface_indices]
+return surface_indices, surface_positions
+""",
+}
+
+
+def _strip_doc(body):
+    b = list(body)
+    if b and isinstance(b[0], ast.Expr) and isinstance(getattr(b[0], 'value', None), ast.Constant) \
+            and isinstance(b[0].value.value, str):
+        b = b[1:]
+    return b
+
+
+def check_bodies(repo, consumed):
+    for (fname, cls, fn), expected in EXPECTED_BODIES.items():
+        src = (Path(repo) / 'femio' / fname).read_text()
+        tree = ast.parse(src)
+        scope = tree.body
+        if cls is not None:
+            cands = [n for n in tree.body if isinstance(n, ast.ClassDef)
+                     and any(isinstance(x, ast.FunctionDef) and x.name == fn for x in n.body)]
+            if len(cands) != 1:
+                raise TranslateError(f'{fname}: method {fn} not found in exactly one class')
+            scope = cands[0].body
+        fns = [n for n in scope if isinstance(n, ast.FunctionDef) and n.name == fn]
+        if len(fns) != 1:
+            raise TranslateError(f'{fname}: {fn} not found exactly once')
+        got = [ast.dump(s) for s in _strip_doc(fns[0].body)]
+        want = [ast.dump(s) for s in ast.parse(expected).body]
+        if got != want:
+            raise TranslateError(f'{fname}:{fn}: body differs from the row-wise unique the model represents')
+        consumed[f'{fname}:{fn}'] = hashlib.sha256(ast.get_source_segment(src, fns[0]).encode()).hexdigest()
+
+
 def translate(repo):
     f = Path(repo) / 'femio' / 'fem_data.py'
     src = f.read_text()
@@ -73,6 +144,7 @@ def translate(repo):
         if key not in forms:
             raise TranslateError(f'{fname}: unrecognised way of carrying nodal variables over')
         cfg[flag] = forms[key]
+    check_bodies(repo, consumed)
     return cfg, consumed
 
 
